@@ -364,7 +364,8 @@ def beforeToken (e : Enc) (k : UInt8) : Bytes :=
 /-! ### reformatValue -/
 
 mutual
-/-- `reformatValue(dst, src, depth)`: (dst', rest) — fuel ≥ `src.length + 1` suffices. -/
+/-- `reformatValue(dst, src, depth)`: (dst', rest) — fuel ≥ `2 * src.length + 2` suffices
+(every call consumes one unit; a nesting level costs two units and at least one byte, a loop iteration one unit and at least two bytes). -/
 def reformatValue (o : Opts) : Nat → Bytes → Bytes → Nat → Except EncErr (Bytes × Bytes)
   | 0, _, _, _ => .error .bug
   | fuel + 1, dst, src, depth =>
@@ -524,7 +525,7 @@ def writeToken (e : Enc) (t : Tok) : Enc × Option EncErr :=
 def writeValue (e : Enc) (v : Bytes) : Enc × Option EncErr :=
   let k := valueKind v
   let b := beforeToken e k
-  match reformatValue e.o (v.length + 1) b (skipWS v) e.m.depth with
+  match reformatValue e.o (2 * v.length + 2) b (skipWS v) e.m.depth with
   | .error err => (e, some err)
   | .ok (b', rest) =>
     match skipWS rest with
